@@ -397,8 +397,53 @@ func sortCalls(f *ssa.Function) []*ssa.Call {
 // executes on every path to `at`.
 func (oa *orderAnalysis) sortedBefore(v ssa.Value, blk *ssa.BasicBlock, at ssa.Instruction) bool {
 	vp := pathOf(v, 0)
+	type sortSite struct {
+		c   *ssa.Call
+		arg ssa.Value
+	}
+	var sites []sortSite
 	for _, c := range sortCalls(blk.Parent()) {
-		arg := unbox(c.Common().Args[0])
+		sites = append(sites, sortSite{c, unbox(c.Common().Args[0])})
+	}
+	// a package helper that sorts its parameter in place on every path
+	eachInstr(blk.Parent(), func(ins ssa.Instruction) {
+		c, ok := ins.(*ssa.Call)
+		if !ok || c.Common().IsInvoke() {
+			return
+		}
+		g := c.Common().StaticCallee()
+		if g == nil || g.Blocks == nil || g.Pkg != blk.Parent().Pkg || g == blk.Parent() {
+			return
+		}
+		for _, sc := range sortCalls(g) {
+			sa := unbox(sc.Common().Args[0])
+			if ld, isLd := sa.(*ssa.UnOp); isLd && ld.Op == token.MUL {
+				// a parameter captured by the comparator lives in a cell
+				if al, isAl := ld.X.(*ssa.Alloc); isAl {
+					if sv := singleStore(al); sv != nil {
+						sa = sv
+					}
+				}
+			}
+			prm, ok := sa.(*ssa.Parameter)
+			if !ok {
+				continue
+			}
+			always := true
+			for _, b := range g.Blocks {
+				if _, isRet := b.Instrs[len(b.Instrs)-1].(*ssa.Return); isRet && !sc.Block().Dominates(b) {
+					always = false
+				}
+			}
+			for k, q := range g.Params {
+				if q == prm && always && k < len(c.Common().Args) {
+					sites = append(sites, sortSite{c, unbox(c.Common().Args[k])})
+				}
+			}
+		}
+	})
+	for _, site := range sites {
+		c, arg := site.c, site.arg
 		if arg != v && pathOf(arg, 0) != vp {
 			continue
 		}
